@@ -180,6 +180,15 @@ def run_case(case: Dict[str, Any], ctx) -> None:
         except Exception as e:
             ctx.violation(key + ":raises:" + exc_key(e), repr(e), case=case)
             return
+    if case["seed"] % 4 == 1:
+        try:  # history: the same layers evaluated under no_grad BEFORE the first training-mode call in this case
+            with torch.no_grad():
+                explicit(x0.clone(), record=False)
+                applied(x0.clone())
+            ctx.count("history:no_grad-pass-first")
+        except Exception as e:
+            ctx.violation(key + ":raises-under-no_grad:" + exc_key(e), repr(e), case=case)
+            return
     try:
         xa = x0.clone().requires_grad_(True)
         with ScaleSpy() as spy:
